@@ -363,7 +363,8 @@ BIT_STRING_decode_uper(const asn_codec_ctx_t *opt_codec_ctx,
 		}
 	}
 
-	if(csiz->effective_bits >= 0) {
+	/* Only a fixed size is known (and allocated) before the length is read */
+	if(csiz->effective_bits == 0) {
 		FREEMEM(st->buf);
         st->size = (csiz->upper_bound + 7) >> 3;
         st->buf = (uint8_t *)MALLOC(st->size + 1);
